@@ -14,14 +14,14 @@ def main():
     modname = sys.argv[1]
     filt = sys.argv[2] if len(sys.argv) > 2 else ""
     importlib.import_module(modname)
-    contracts = {c.target: c for c in S.REGISTRY}
+    contracts = {c.name: c for c in S.REGISTRY}
     for c in S.REGISTRY:
         try:
             c.bind()
         except KeyError:
             pass
     for c in list(S.REGISTRY) + list(S.LEMMAS):
-        tgt = c.target if hasattr(c, "target") and c.target else "lemma::" + c.name
+        tgt = c.name if c in S.REGISTRY else "lemma::" + c.name
         if filt and filt not in tgt:
             continue
         t0 = time.time()
